@@ -74,5 +74,6 @@ Example C38_nonvacuous :
   guard_trim (bm_of_list es) [] = false /\
   paging 9 (trie_of_entries es) [] 2 [] =
     Ok ([[[]; [n2b 0]]; [[n2b 0; n2b 0]; [n2b 0; n2b 1]]; [[n2b 1]; [n2b 255]]; []], true) /\
-  paging 9 (trie_of_entries es) [n2b 0] 2 [] = Ok ([[[n2b 0]; [n2b 0; n2b 0]]; [[n2b 0; n2b 1]]], true).
+  guard_trim (bm_of_list es) [n2b 0] = true /\
+  paging 9 (trie_of_entries es) [n2b 1] 1 [] = Ok ([[[n2b 1]]; []], true).
 Proof. vm_compute. repeat split; reflexivity. Qed.
